@@ -271,6 +271,57 @@ theorem loopSpec_model (base : Loc) (q : Array (BitVec 64)) (H : Nat) :
           simp
       · simp [hd] at hn
 
+theorem callsOf_iterSpec_blocked (base : Loc) (i : Nat) (lo : BitVec 64) (inp : List Val)
+    (hd : (iterSpec base i lo inp).done = false) : callsOf (iterSpec base i lo inp).events = [] := by
+  match inp with
+  | [] => simp [iterSpec, callsOf]
+  | v0 :: r0 =>
+    simp only [iterSpec] at hd ⊢
+    repeat' split
+    all_goals simp_all [callsOf, ldq, callEv]
+
+/-- **prefixes**: every run of the source loop – completed, blocked at any access, or out of budget – whose loads so far
+returned the ring's content has called a PREFIX of the list the model decodes (whenever the model's loop does not overrun) -/
+theorem loopSpec_model_prefix (base : Loc) (q : Array (BitVec 64)) (H : Nat) :
+    ∀ (n i : Nat) (lo : BitVec 64) (inp : List Val) (acc : List Event),
+    LoadsFrom base q (loopSpec base H n i lo inp acc).events →
+    ∀ (m : Nat) (r : Nat × BitVec 64 × List (BitVec 64 × BitVec 64)), runLoop Cfg.real q m i H lo = some r →
+    ∃ k, callsOf (loopSpec base H n i lo inp acc).events = callsOf acc ++ (r.2.2.take k).map callV := by
+  intro n
+  induction n with
+  | zero => intro i lo inp acc _ m r _; exact ⟨0, by simp [loopSpec]⟩
+  | succ n ih =>
+    intro i lo inp acc hl m r hr
+    unfold loopSpec at hl ⊢
+    by_cases hiH : i = H
+    · simp only [hiH, if_true]; exact ⟨0, by simp⟩
+    · simp only [hiH, if_false] at hl ⊢
+      by_cases hd : (iterSpec base i lo inp).done = true
+      · simp only [hd, if_true] at hl ⊢
+        obtain ⟨t, ht⟩ := loopSpec_events_acc base H n (iterSpec base i lo inp).i (iterSpec base i lo inp).lo
+          (iterSpec base i lo inp).inp (acc ++ (iterSpec base i lo inp).events)
+        have hl' : LoadsFrom base q (iterSpec base i lo inp).events := by
+          apply hl.mono
+          intro e he; rw [ht]; simp [he]
+        obtain ⟨m1, m2, m3⟩ := iterSpec_model base q i lo inp hd hl'
+        match m, hr with
+        | 0, hr => simp [runLoop, hiH] at hr
+        | m + 1, hr =>
+          simp only [runLoop, hiH, if_false] at hr
+          split at hr
+          · rename_i i' lo' cs hr'
+            simp only [Option.some.injEq] at hr
+            subst hr
+            rw [← m1, ← m2] at hr'
+            obtain ⟨k, hk⟩ := ih _ _ _ _ hl m _ hr'
+            refine ⟨k + 1, ?_⟩
+            rw [hk, callsOf_append, m3]
+            simp
+          · simp at hr
+      · have hd' : (iterSpec base i lo inp).done = false := by simpa using hd
+        simp only [hd']
+        exact ⟨0, by simp [callsOf_append, callsOf_iterSpec_blocked base i lo inp hd']⟩
+
 /-! pure facts about `Ring.runLoop` -/
 
 theorem dec1_n_pos (lo w0 w1 w2 : BitVec 64) : 1 ≤ (dec1 lo w0 w1 w2).n := by
@@ -389,6 +440,40 @@ theorem barrier_queue_runQ (fuel : Nat) (env : Env) (base : Loc) (x : TState) (H
   · obtain ⟨-, e2⟩ := h2 hn
     rw [e2] at hc
     exact absurd hc hn
+
+/-- **prefixes of `rcu_defer_barrier_queue` ⊑ `Defer.runQ`**: for every budget and every oracle of words, every run –
+completed, blocked at any access, out of budget – whose slot loads returned the content of the model's ring has performed
+a PREFIX of the calls `runQ` decodes, in order (whenever `runQ` does not overrun); and only a completed run stores `tail` -/
+theorem barrier_queue_prefix (fuel : Nat) (env : Env) (base : Loc) (x : TState) (H now : Nat) (inp : List Val)
+    (hq : env.vars "queue" = some (.ptr base)) (hH : env.vars "head" = some (.int (H : Int)))
+    (hr : RelR env base x) (hw : WordInp inp) :
+    ∃ out, exec fuel Gen.Src.«rcu_defer_barrier_queue» env inp = .ok out ∧
+      (LoadsFrom base x.q out.events → ∀ x' calls, runQ Cfg.real x H now = some (x', calls) →
+        ∃ k, callsOf out.events = (calls.take k).map callV) ∧
+      (out.ctl ≠ .normal → storesOf out.events = []) := by
+  obtain ⟨o, ho, -, h1, h2⟩ := cons_exec fuel env base x.tail H x.lastOut inp hq hH hr.1 hr.2 hw
+  refine ⟨o, ho, ?_, ?_⟩
+  · intro hl x' calls hrq
+    simp only [runQ] at hrq
+    split at hrq
+    · simp at hrq
+    · rename_i i lo cs hrl
+      simp only [Option.some.injEq, Prod.mk.injEq] at hrq
+      obtain ⟨-, rfl⟩ := hrq
+      by_cases hn : (loopSpec base H fuel x.tail x.lastOut inp []).ctl = .normal
+      · obtain ⟨e1, -⟩ := h1 hn
+        have hl' : LoadsFrom base x.q (loopSpec base H fuel x.tail x.lastOut inp []).events := by
+          apply hl.mono; intro e he; rw [e1]; simp [he]
+        obtain ⟨k, hk⟩ := loopSpec_model_prefix base x.q H fuel x.tail x.lastOut inp [] hl' _ _ hrl
+        exact ⟨k, by rw [e1, callsOf_append, hk]; simp [callsOf]⟩
+      · obtain ⟨e1, -⟩ := h2 hn
+        rw [e1] at hl ⊢
+        obtain ⟨k, hk⟩ := loopSpec_model_prefix base x.q H fuel x.tail x.lastOut inp [] hl _ _ hrl
+        exact ⟨k, by rw [hk]; simp [callsOf]⟩
+  · intro hc
+    by_cases hn : (loopSpec base H fuel x.tail x.lastOut inp []).ctl = .normal
+    · exact absurd (h1 hn).2.1 hc
+    · rw [(h2 hn).1, storesOf_loopSpec]; rfl
 
 /-- **round trip through the model's invariant** (`Defer.TInv`, `Defer.Snap`: what `Defer/Inv.lean` proves of every
 reachable state of the operation-level model, the ring having been filled by `enqT` = the producer above): a completed run
